@@ -74,6 +74,11 @@ CHECKS = {
          'same kernel and simulator spaces as C03; every case is checked against the static-timing window computed by the harness, re-run with all inputs shifted and '
          'with all times and delays scaled by powers of two (results must move exactly), and checked for strictly increasing timestamps under polarity-independent delays',
          'trusted: window computation in mc/wsim.py; exactness relies on dyadic values', 'DESIGN.md section 4 C04'),
+
+ 'C13': ('exploration', 'bounded exhaustive enumeration: capture function on all waveforms x times; kernel counts/overflow vs unlimited capacity; simulator x accumulation tables',
+         'every waveform over a 4-point grid (both terminators) x 17 capture times through the real capture function; the C03 kernel space with rise/fall counts compared to the decoded '
+         'output and to a capacity-64 run; family circuits x stimuli x delays x capacities x capture times x seven accumulation-control table shapes (both heights) through WaveSim',
+         'trusted: waveform decoder and summary() in the harness; sd = 0 only', 'DESIGN.md section 4 C13'),
 }
 
 NOT_YET = 'check not built yet in this session (see DESIGN.md build order); will be claimed once its exhaustive check exists'
